@@ -300,6 +300,10 @@ def writer_table(func, role='W'):
     return out
 
 
+VALUE_WRAPPERS = {'np.array', 'np.asarray', 'np.copy', 'np.atleast_1d', 'np.ascontiguousarray',
+                  'list', 'tuple', 'int', 'float', 'bool', 'str', 'np.float64', 'np.int64'}
+
+
 def reader_table(func, obj):
     """Entries consumed by a reader.  `obj` is the object being restored
     ('bound', 'emulator', 'self')."""
@@ -311,10 +315,20 @@ def reader_table(func, obj):
     def dest_of(node):
         """Destination attribute of the statement containing `node`."""
         p = node
+        consumed = False        # the value is an argument of a computation, not the stored value
         while p is not None and not isinstance(p, ast.stmt):
-            p = par.get(id(p))
+            q = par.get(id(p))
+            if isinstance(q, ast.Call) and p is not q.func:
+                d = dotted(q.func) or ''
+                if not (d in VALUE_WRAPPERS or (isinstance(q.func, ast.Attribute) and
+                                                q.func.attr in ('read', 'append', 'extend',
+                                                                'insert'))):
+                    consumed = True
+            p = q
         if p is None:
             return None, None
+        if consumed:
+            return None, p
         if isinstance(p, ast.Assign) and len(p.targets) == 1:
             ra = root_attr(p.targets[0], obj)
             if ra:
@@ -357,9 +371,13 @@ def reader_table(func, obj):
                 if isinstance(p, ast.Assign) and isinstance(p.targets[0], ast.Name) and \
                         p.targets[0].id in gv:
                     continue
-                if isinstance(p, ast.Subscript) and p.value is n and _is_group(n, gv) and \
-                        isinstance(par.get(id(p)), ast.Subscript):
-                    pass
+                if isinstance(p, ast.Attribute) and p.attr == 'attrs' and \
+                        any(isinstance(x, ast.Call) and isinstance(x.func, ast.Attribute) and
+                            x.func.attr == 'create_group' and x.args and
+                            key_template(x.args[0])[0] == key
+                            for f2 in (func.cls.methods.values() if func.cls else ())
+                            for x in ast.walk(f2.node)):
+                    continue    # fstream['sampler'].attrs[...]: the sub-group itself, used inline
                 attr, st = dest_of(n)
                 cls_names, call = classes_reading(n)
                 kind = 'group' if cls_names else 'dataset'
@@ -1430,6 +1448,36 @@ def rule_P7(ctx, cls, w, r, rid='P7'):
                         why = 'restored when flag %r is true; the writer stores `%s`' % (
                             k, unparse(e.src))
             ctx.ob(rid, '%s.read:presence(%s)' % (cls.name, attr), ok, r.where(test), why)
+    # an optional attribute never receives a value in read() without the file being asked
+    # whether it was present: every non-None assignment that can survive to the return is
+    # guarded by a file probe / stored flag / restored state
+    rcfg = cfg_of(r)
+    rassigned = attrs_assigned(r, robj)
+    rpar = _parents(r.node)
+    for attr in sorted(copt):
+        for st in walk_no_nested(r.node):
+            if not (isinstance(st, ast.Assign) and len(st.targets) == 1 and
+                    isinstance(st.targets[0], ast.Attribute) and
+                    isinstance(st.targets[0].value, ast.Name) and
+                    st.targets[0].value.id == robj and st.targets[0].attr == attr and
+                    rcfg.has(st)):
+                continue
+            if isinstance(st.value, ast.Constant) and st.value.value is None:
+                continue
+            if isinstance(st.value, ast.IfExp):
+                continue        # handled through its own test above
+            nid = rcfg.node_of(st).id
+            later = rassigned.get(attr, set()) - {nid}
+            if later and rcfg.must_pass(nid, rcfg.exit.id, later):
+                continue
+            guarded = any(_file_guard(t, robj) for t, _ in _guards_of(r, st, rpar))
+            n += 1
+            ctx.ob(rid, '%s.read:presence-asked(%s)' % (cls.name, attr), guarded, r.where(st),
+                   'the value assigned to optional attribute %r depends on what the file says'
+                   % attr if guarded else
+                   'optional attribute %r receives `%s` on a path that never asks the file '
+                   'whether it was present: an object written without it comes back with one'
+                   % (attr, unparse(st.value)[:50]))
     return n
 
 
@@ -1629,7 +1677,15 @@ def rule_P8(ctx, rid='P8'):
              isinstance(lp.iter, ast.Attribute) and lp.iter.attr == '__dict__' or
              (isinstance(lp, ast.For) and isinstance(lp.iter, ast.Call) and
               dotted(lp.iter.func) == 'vars')]
-    ctx.require(len(loops) == 1, 'NeuralNetworkEmulator.write: attribute sweep not found')
+    ctx.require(len(loops) <= 1, 'NeuralNetworkEmulator.write: several attribute sweeps')
+    ctx.ob(rid, 'NeuralNetworkEmulator.write:sweep-present', len(loops) == 1, f.where(),
+           'the writer sweeps every attribute of each fitted network' if loops else
+           'the writer no longer sweeps the attributes of the fitted networks (a fixed selection '
+           'is stored instead): hyper-parameters outside the selection, e.g. the activation, are '
+           'not stored, and the reader rebuilds the network with library defaults for them -- a '
+           'restored emulator can predict differently from the one that was written')
+    if not loops:
+        return
     lp = loops[0]
     kv = lp.target.id if isinstance(lp.target, ast.Name) else None
     # keys stored explicitly as datasets: 'coefs_{}_{}' -> 'coefs_'
@@ -1700,6 +1756,63 @@ def _is_memo_cache(prog, cname, attr):
 # P10 restored, not re-derived
 # ---------------------------------------------------------------------------
 
+def _from_file(v, gv):
+    return any((isinstance(x, ast.Subscript) and (_is_group(x.value, gv) or _is_attrs(x.value)))
+               or (isinstance(x, ast.Name) and x.id == 'rng')
+               or (isinstance(x, ast.Attribute) and x.attr == 'rng')
+               or (isinstance(x, ast.Name) and x.id in gv)
+               for x in ast.walk(v))
+
+
+class _ObjName(ast.NodeTransformer):
+    def __init__(self, obj):
+        self.obj = obj
+
+    def visit_Name(self, node):
+        return ast.Name(id='OBJ', ctx=node.ctx) if node.id == self.obj else node
+
+
+def _rederived_like_constructor(ctx, rid, cls, reader, obj, st, a, gv, cfg, assigned):
+    """An attribute that only constructors assign and that read() computes instead of
+    restoring: accepted when the expression is the one compute() uses (same function of
+    restored attributes => same value), reported otherwise."""
+    v = st.value
+    if _from_file(v, gv):
+        return 0
+    if isinstance(v, ast.Constant) or (isinstance(v, (ast.List, ast.Tuple, ast.Dict)) and
+                                       not ast.unparse(v).strip('[](){}')):
+        return 0        # None / constant / empty container that is filled from the file
+    later = assigned.get(a, set()) - {cfg.node_of(st).id}
+    if later and cfg.must_pass(cfg.node_of(st).id, cfg.exit.id, later):
+        return 0
+    import copy
+    rtxt = unparse(_ObjName(obj).visit(copy.deepcopy(v)))
+    ctxts = []
+    for cname in ('compute', 'train'):
+        comp = cls.methods.get(cname)
+        if comp is None:
+            continue
+        try:
+            cobj = _ctor_obj(comp)
+        except AnalysisError:
+            continue
+        for cs in walk_no_nested(comp.node):
+            if isinstance(cs, ast.Assign) and len(cs.targets) == 1 and \
+                    isinstance(cs.targets[0], ast.Attribute) and \
+                    isinstance(cs.targets[0].value, ast.Name) and \
+                    cs.targets[0].value.id == cobj and cs.targets[0].attr == a:
+                ctxts.append(unparse(_ObjName(cobj).visit(copy.deepcopy(cs.value))))
+    ok = rtxt in ctxts
+    ctx.ob(rid, '%s.read:rederived(%s)' % (cls.name, a), ok, reader.where(st),
+           'attribute %r is recomputed by read() with the constructor\'s own expression `%s`'
+           % (a, rtxt[:50]) if ok else
+           'attribute %r (read by the observation interface) is not restored from the file but '
+           'recomputed as `%s`, while the constructor computes it as %s: the restored bound '
+           'need not reproduce the written one bit for bit' % (
+               a, rtxt[:60], [c[:60] for c in ctxts] or 'nothing comparable'))
+    return 1
+
+
 def rule_P10(ctx, cls, reader, obj, rid='P10'):
     ctx.rule(rid, 'restored, not re-derived: an attribute that the observation interface reads '
              'and that some non-constructor method modifies is restored from the file (or from '
@@ -1709,6 +1822,8 @@ def rule_P10(ctx, cls, reader, obj, rid='P10'):
     reads = obs_reads(prog, cls)
     mutable = _mutable_attrs(prog, cls.name)
     gv = _group_vars(reader)
+    cfg = cfg_of(reader)
+    assigned = attrs_assigned(reader, obj)
     n = 0
     for st in walk_no_nested(reader.node):
         if not (isinstance(st, ast.Assign) and len(st.targets) == 1 and
@@ -1716,8 +1831,14 @@ def rule_P10(ctx, cls, reader, obj, rid='P10'):
                 isinstance(st.targets[0].value, ast.Name) and st.targets[0].value.id == obj):
             continue
         a = st.targets[0].attr
+        if a in reads and a not in mutable and a != 'rng' and cfg.has(st):
+            n += _rederived_like_constructor(ctx, rid, cls, reader, obj, st, a, gv, cfg, assigned)
         if a not in reads or a not in mutable or a == 'rng':
             continue        # the generator is plumbed, not persisted, per object (F3/F4)
+        if cfg.has(st):
+            later = assigned.get(a, set()) - {cfg.node_of(st).id}
+            if later and cfg.must_pass(cfg.node_of(st).id, cfg.exit.id, later):
+                continue    # a preliminary value that is always overwritten before the return
         from_file = any((isinstance(x, ast.Subscript) and (_is_group(x.value, gv) or
                                                             _is_attrs(x.value)))
                         or (isinstance(x, ast.Name) and x.id == 'rng')
